@@ -229,7 +229,7 @@ def malformed_single(ctx, S, n):
     for _ in range(n):
         H, W = rng.randint(1, 4), rng.randint(1, 4)
         f = rand_binary(rng, H, W)
-        kind = rng.choice(["shape", "wbig", "wzero", "wneg"])
+        kind = rng.choice(["shape", "wbig", "wzero", "wneg", "badop"])
         o = rand_binary(rng, H, W)
         wh, ww = rng.randint(1, H), rng.randint(1, W)
         if kind == "shape":
@@ -244,8 +244,19 @@ def malformed_single(ctx, S, n):
                 wh = 0
             else:
                 ww = 0
-        else:
+        elif kind == "wneg":
             wh = -rng.randint(1, 2)
+        else:
+            # an operator outside utils.NumpyThresholdOperator.valid_ops
+            pad = rng.random() < 0.5
+            impl = core.call_impl(S.spatial.fss_2d_single_field, f, o, event_threshold=0.5, window_size=(wh, ww), zero_padding=pad,
+                                  threshold_operator=rng.choice([np.equal, np.not_equal, max]))
+            m = ctx.model("c16_single", enc_list([enc_rows(f), enc_rows(o), enc_num(Fraction(1, 2)), enc_str("eq"), str(wh), str(ww), enc_bool(pad)]))
+            ctx.case(("badop", f.tolist(), o.tolist(), wh, ww, pad), False)
+            if not (impl[0] == "err" and impl[1] == m[0] == m[1]):
+                ctx.tie_fail("unsupported threshold operator", {"fcst": f.tolist(), "window_size": [wh, ww]}, str(impl[1])[:100], str(m))
+            ctx.count("malformed:badop")
+            continue
         single_case(ctx, S, f, o, Fraction(1, 2), "gt", wh, ww, rng.random() < 0.5)
         ctx.count("malformed:" + kind)
 
@@ -292,11 +303,15 @@ def multi_cases(ctx, S, n):
         th = Fraction(rng.randint(-2, 2), 2)
         op = rng.choice(OPS)
         sp = ("x", "y") if rng.random() < 0.7 else ("y", "x")
+        wh, ww = rng.randint(1, fcst.sizes[sp[0]]), rng.randint(1, fcst.sizes[sp[1]])   # window follows the order of spatial_dims
         r = rng.random()
         if r < 0.04:
             sp = ("x", "zz")
         elif r < 0.07:
             wh = fcst.sizes[sp[0]] + 1 if sp[0] in fcst.sizes else wh
+        elif r < 0.10 and obs.sizes["x"] > 1:
+            obs = obs.isel(x=slice(0, obs.sizes["x"] - 1))      # spatial extents differ
+            ctx.count("multi:spatial_extent_differs")
         kw = dict(event_threshold=float(th), window_size=(wh, ww), spatial_dims=sp, zero_padding=pad, threshold_operator=np_op(op))
         if rd is not None:
             kw["reduce_dims"] = rd
@@ -386,6 +401,45 @@ def aggregation_cases(ctx, S, n):
         if per[0] == "ok" and agg[0] == "ok" and abs(float(per[1].mean()) - float(agg[1])) > 1e-6:
             differs += 1
     ctx.count("aggregate:differs_from_mean_of_scores", differs)
+
+
+def replay(ctx, rec):
+    import scores as S
+    import scores.spatial  # noqa: F401
+    v = rec.get("violation") or {}
+    c = v.get("case") or {}
+    fn = c.get("fn")
+    if fn == "fss_2d_single_field":
+        f = np.array([[float(x) for x in r] for r in c["fcst"]], dtype=float)
+        o = np.array([[float(x) for x in r] for r in c["obs"]], dtype=float)
+        wh, ww = c["window_size"]
+        single_case(ctx, S, f, o, Fraction(c["event_threshold"]), c["operator"], int(wh), int(ww), bool(c["zero_padding"]))
+        return
+    if fn in ("fss_2d", "fss_2d_binary"):
+        fcst, obs = gens.da_from_repr(c["fcst"]), gens.da_from_repr(c["obs"])
+        wh, ww = c["window_size"]
+        pad, rd, pd = bool(c["zero_padding"]), c.get("reduce_dims"), c.get("preserve_dims")
+        kw = dict(window_size=(wh, ww), zero_padding=pad)
+        if rd is not None:
+            kw["reduce_dims"] = rd
+        if pd is not None:
+            kw["preserve_dims"] = pd
+        if fn == "fss_2d":
+            sp = tuple(c["spatial_dims"])
+            th, op = Fraction(c["event_threshold"]), c["operator"]
+            impl = core.call_impl(S.spatial.fss_2d, fcst, obs, event_threshold=float(th), spatial_dims=sp, threshold_operator=np_op(op), **kw)
+            m = ctx.model("c16_fss2d", enc_list([enc_arr(fcst), enc_arr(obs), enc_num(th), enc_str(op), str(wh), str(ww),
+                                                 enc_list([enc_str(s) for s in sp]), enc_bool(pad), enc_dimspec(rd), enc_dimspec(pd)]))
+        else:
+            as_bool, check = bool(c["bool_dtype"]), bool(c["check_boolean"])
+            fb, ob = (fcst.astype(bool), obs.astype(bool)) if as_bool else (fcst, obs)
+            impl = core.call_impl(S.spatial.fss_2d_binary, fb, ob, spatial_dims=("x", "y"), check_boolean=check, **kw)
+            m = ctx.model("c16_binary", enc_list([enc_arr(fcst), enc_arr(obs), enc_bool(as_bool), enc_bool(check), str(wh), str(ww),
+                                                  enc_list([enc_str("x"), enc_str("y")]), enc_bool(pad), enc_dimspec(rd), enc_dimspec(pd)]))
+        ctx.case(c, impl[0] == "ok")
+        judge_array(ctx, fn, c, impl, m[0], m[1], pad, wh, ww)
+        return
+    run(ctx)
 
 
 def run(ctx):
